@@ -157,6 +157,7 @@ pub fn strata(l: u32, lq: u32) -> Vec<Stratum> {
         Stratum { name: "pkg:t/n?", prefix: "pkg:t/n?", tokens: QTOKENS12, max_len: lq },
         Stratum { name: "pkg:t/n?k=a", prefix: "pkg:t/n?k=a", tokens: QTOKENS12, max_len: lq },
         Stratum { name: "pkg:t/n?checksum=a:00", prefix: "pkg:t/n?checksum=a:00", tokens: QTOKENS12, max_len: lq },
+        Stratum { name: "pkg:t/n?checksum=a1:00", prefix: "pkg:t/n?checksum=a1:00", tokens: QTOKENS12, max_len: lq },
     ]
 }
 
